@@ -5,7 +5,6 @@ package standard
 
 //@ func (*Service).runSignBeaconAttestationChecks
 //@ requires metadata != nil && req != nil && req.Source != nil && req.Target != nil && state != nil && s != nil
-//@ requires cap(req.Domain) >= 4
 //@ modifies state.SourceEpoch, state.TargetEpoch
 //@ ensures [verdict] result == rules.APPROVED || result == rules.DENIED
 //@ ensures [sound] result == rules.APPROVED ==> attOK(old(state.SourceEpoch), old(state.TargetEpoch), req.Source.Epoch, req.Target.Epoch, prefix4(req.Domain))
@@ -43,12 +42,14 @@ package standard
 //@ ensures [ok] store_ok && len(key) > 0 && len(value) > 0 ==> result == nil
 
 //@ func (*Service).fetchSignBeaconAttestationState
+//@ reveal rowAttOk rowAttS rowAttT
 //@ requires s != nil && s.store != nil
 //@ ensures [found] result1 == nil ==> result0 != nil && fresh(result0) && wmAttOk(bytes(pubKey)) && result0.SourceEpoch == wmAttS(bytes(pubKey)) && result0.TargetEpoch == wmAttT(bytes(pubKey))
 //@ ensures [undecodable] !wmAttOk(bytes(pubKey)) ==> result1 != nil
 //@ ensures [ok] store_ok && wmAttOk(bytes(pubKey)) ==> result1 == nil
 
 //@ func (*Service).storeSignBeaconAttestationState
+//@ reveal rowAttOk rowAttS rowAttT
 //@ requires s != nil && s.store != nil && state != nil
 //@ modifies db
 //@ ensures [written] result == nil ==> wmAttOk(bytes(pubKey)) && wmAttS(bytes(pubKey)) == state.SourceEpoch && wmAttT(bytes(pubKey)) == state.TargetEpoch
@@ -58,7 +59,6 @@ package standard
 
 //@ func (*Service).OnSignBeaconAttestation
 //@ requires s != nil && s.store != nil && metadata != nil && req != nil && req.Source != nil && req.Target != nil
-//@ requires cap(req.Domain) >= 4
 //@ modifies db
 //@ ensures [verdicts] result == rules.APPROVED || result == rules.DENIED || result == rules.FAILED
 //@ ensures [sound] result == rules.APPROVED ==> old(wmAttOk(bytes(metadata.PubKey))) && attOK(old(wmAttS(bytes(metadata.PubKey))), old(wmAttT(bytes(metadata.PubKey))), req.Source.Epoch, req.Target.Epoch, prefix4(req.Domain))
@@ -84,12 +84,14 @@ package standard
 //@ ensures [gob] len(data) > 0 && data[0] != 1 ==> ((result == nil) <==> gobPropOk(bytes(data))) && (result == nil ==> s.Slot == gobPropL(bytes(data)))
 
 //@ func (*Service).fetchSignBeaconProposalState
+//@ reveal rowPropOk rowPropL
 //@ requires s != nil && s.store != nil
 //@ ensures [found] result1 == nil ==> result0 != nil && fresh(result0) && wmPropOk(bytes(pubKey)) && result0.Slot == wmPropL(bytes(pubKey))
 //@ ensures [undecodable] !wmPropOk(bytes(pubKey)) ==> result1 != nil
 //@ ensures [ok] store_ok && wmPropOk(bytes(pubKey)) ==> result1 == nil
 
 //@ func (*Service).storeSignBeaconProposalState
+//@ reveal rowPropOk rowPropL
 //@ requires s != nil && s.store != nil && state != nil
 //@ modifies db
 //@ ensures [written] result == nil ==> wmPropOk(bytes(pubKey)) && wmPropL(bytes(pubKey)) == state.Slot
@@ -99,7 +101,6 @@ package standard
 
 //@ func (*Service).OnSignBeaconProposal
 //@ requires s != nil && s.store != nil && metadata != nil && req != nil
-//@ requires cap(req.Domain) >= 4
 //@ modifies db
 //@ ensures [verdicts] result == rules.APPROVED || result == rules.DENIED || result == rules.FAILED
 //@ ensures [sound] result == rules.APPROVED ==> old(wmPropOk(bytes(metadata.PubKey))) && propOK(old(wmPropL(bytes(metadata.PubKey))), req.Slot, prefix4(req.Domain))
@@ -113,7 +114,6 @@ package standard
 
 //@ func (*Service).OnSign
 //@ requires s != nil && req != nil
-//@ requires cap(req.Domain) >= 4
 //@ ensures [verdicts] result == rules.APPROVED || result == rules.DENIED || result == rules.FAILED
 //@ ensures [noslashable] result == rules.APPROVED ==> prefix4(req.Domain) != ATT && prefix4(req.Domain) != PROP
 //@ ensures [exit] result == rules.APPROVED && prefix4(req.Domain) == EXIT ==> metadata.IP != "" && (exists j int :: 0 <= j && j < len(s.adminIPs) && s.adminIPs[j] == metadata.IP)
@@ -121,3 +121,96 @@ package standard
 //@ loop #1
 //@ invariant [range] 0 <= _n && _n <= len(s.adminIPs)
 //@ invariant [none] forall j int :: 0 <= j && j < _n ==> s.adminIPs[j] != metadata.IP
+
+// ---- batch path ----
+
+//@ func (*Store).BatchStore
+//@ requires s != nil
+//@ modifies db
+//@ ensures [written] result == nil ==> len(keys) == len(values) && len(keys) > 0 && (forall i int :: 0 <= i && i < len(keys) && (forall j int :: i < j && j < len(keys) ==> bytes(keys[j]) != bytes(keys[i])) ==> bytes(keys[i]) in db && db[bytes(keys[i])] == bytes(values[i]))
+//@ ensures [frame] forall k Bytes :: (forall i int :: 0 <= i && i < len(keys) ==> bytes(keys[i]) != k) ==> ((k in db) <==> (k in old(db))) && db[k] == old(db)[k]
+//@ ensures [partial] result != nil ==> (forall k Bytes :: (((k in db) <==> (k in old(db))) && db[k] == old(db)[k]) || (k in db && (exists i int :: 0 <= i && i < len(keys) && i < len(values) && bytes(keys[i]) == k && db[k] == bytes(values[i]))))
+//@ ensures [ok] store_ok && len(keys) == len(values) && len(keys) > 0 && (forall i int :: 0 <= i && i < len(keys) ==> len(keys[i]) > 0 && len(values[i]) > 0) ==> result == nil
+
+//@ func (*Service).fetchSignBeaconAttestationStates
+//@ requires s != nil && s.store != nil
+//@ ensures [len] result1 == nil ==> len(result0) == len(pubKeys) && fresh(result0)
+//@ ensures [each] result1 == nil ==> (forall j int :: 0 <= j && j < len(pubKeys) ==> result0[j] != nil && fresh(result0[j]) && wmAttOk(bytes(pubKeys[j])) && result0[j].SourceEpoch == wmAttS(bytes(pubKeys[j])) && result0[j].TargetEpoch == wmAttT(bytes(pubKeys[j])))
+//@ ensures [distinct] result1 == nil ==> (forall j int, k int :: 0 <= j && j < k && k < len(pubKeys) ==> result0[j] != result0[k])
+//@ ensures [undecodable] (exists j int :: 0 <= j && j < len(pubKeys) && !wmAttOk(bytes(pubKeys[j]))) ==> result1 != nil
+//@ ensures [ok] store_ok && (forall j int :: 0 <= j && j < len(pubKeys) ==> wmAttOk(bytes(pubKeys[j]))) ==> result1 == nil
+//@ loop #1
+//@ invariant [range] 0 <= _n && _n <= len(pubKeys) && len(states) == len(pubKeys) && fresh(states)
+//@ invariant [each] forall j int :: 0 <= j && j < _n ==> states[j] != nil && fresh(states[j]) && allocated(states[j]) && wmAttOk(bytes(pubKeys[j])) && states[j].SourceEpoch == wmAttS(bytes(pubKeys[j])) && states[j].TargetEpoch == wmAttT(bytes(pubKeys[j]))
+//@ invariant [distinct] forall j int, k int :: 0 <= j && j < k && k < _n ==> states[j] != states[k]
+
+//@ func (*Service).storeSignBeaconAttestationStates
+//@ reveal rowAttOk rowAttS rowAttT
+//@ requires s != nil && s.store != nil
+//@ requires [nonnil] forall j int :: 0 <= j && j < len(states) ==> states[j] != nil
+//@ modifies db
+//@ ensures [written] result == nil ==> len(pubKeys) == len(states) && (forall i int :: 0 <= i && i < len(pubKeys) && (forall j int :: i < j && j < len(pubKeys) ==> bytes(pubKeys[j]) != bytes(pubKeys[i])) ==> wmAttOk(bytes(pubKeys[i])) && wmAttS(bytes(pubKeys[i])) == states[i].SourceEpoch && wmAttT(bytes(pubKeys[i])) == states[i].TargetEpoch)
+//@ ensures [frame] forall k Bytes :: (forall i int :: 0 <= i && i < len(pubKeys) ==> k != attKey(bytes(pubKeys[i]))) ==> ((k in db) <==> (k in old(db))) && db[k] == old(db)[k]
+//@ ensures [partial] result != nil ==> (forall k Bytes :: (((k in db) <==> (k in old(db))) && db[k] == old(db)[k]) || (k in db && (exists i int :: 0 <= i && i < len(pubKeys) && i < len(states) && k == attKey(bytes(pubKeys[i])) && rowAttOk(true, db[k]) && rowAttS(true, db[k]) == states[i].SourceEpoch && rowAttT(true, db[k]) == states[i].TargetEpoch)))
+//@ ensures [ok] store_ok && len(pubKeys) == len(states) && len(pubKeys) > 0 ==> result == nil
+//@ hint [inj] forall a Bytes, b Bytes :: bnorm(a) && bnorm(b) && attKey(a) == attKey(b) ==> a == b
+//@ loop #1
+//@ invariant [range] 0 <= _n && _n <= len(keys) && len(keys) == len(pubKeys) && len(values) == len(states) && len(pubKeys) == len(states) && fresh(keys) && fresh(values) && base(keys) != base(values)
+//@ invariant [alloc] forall j int :: 0 <= j && j < _n ==> allocated(keys[j]) && allocated(values[j]) && len(keys[j]) > 0 && len(values[j]) > 0
+//@ invariant [keys] forall j int :: 0 <= j && j < _n ==> bytes(keys[j]) == attKey(bytes(pubKeys[j]))
+//@ invariant [vals] forall j int :: 0 <= j && j < _n ==> decAttOk(bytes(values[j])) && decAttS(bytes(values[j])) == states[j].SourceEpoch && decAttT(bytes(values[j])) == states[j].TargetEpoch
+//@ hint [newkey] bytes(keys[_i]) == attKey(bytes(pubKeys[_i]))
+//@ loop #2
+//@ invariant true
+
+//@ func (*Service).OnSignBeaconAttestations
+//@ requires s != nil && s.store != nil
+//@ requires [distinct] forall i int, j int :: 0 <= i && i < j && j < len(metadata) && metadata[i] != nil && metadata[j] != nil ==> bytes(metadata[i].PubKey) != bytes(metadata[j].PubKey)
+//@ modifies db
+//@ ensures [len] len(result) == len(req)
+//@ ensures [verdicts] forall i int :: 0 <= i && i < len(req) ==> result[i] == rules.APPROVED || result[i] == rules.DENIED || result[i] == rules.FAILED || result[i] == rules.UNKNOWN
+//@ ensures [sound-wf] forall i int :: 0 <= i && i < len(req) && result[i] == rules.APPROVED ==> len(metadata) == len(req) && metadata[i] != nil && req[i] != nil && req[i].Source != nil && req[i].Target != nil
+//@ ensures [sound-ok] forall i int :: 0 <= i && i < len(req) && result[i] == rules.APPROVED ==> old(wmAttOk(bytes(metadata[i].PubKey)))
+//@ ensures [sound] forall i int :: 0 <= i && i < len(req) && result[i] == rules.APPROVED ==> attOK(old(wmAttS(bytes(metadata[i].PubKey))), old(wmAttT(bytes(metadata[i].PubKey))), req[i].Source.Epoch, req[i].Target.Epoch, prefix4(req[i].Domain))
+//@ ensures [rec] forall i int :: 0 <= i && i < len(req) && result[i] == rules.APPROVED ==> wmAttOk(bytes(metadata[i].PubKey)) && wmAttS(bytes(metadata[i].PubKey)) == req[i].Source.Epoch && wmAttT(bytes(metadata[i].PubKey)) == req[i].Target.Epoch
+//@ ensures [mono] forall i int :: 0 <= i && i < len(metadata) && metadata[i] != nil && old(wmAttOk(bytes(metadata[i].PubKey))) ==> wmAttOk(bytes(metadata[i].PubKey)) && wmAttS(bytes(metadata[i].PubKey)) >= old(wmAttS(bytes(metadata[i].PubKey))) && wmAttT(bytes(metadata[i].PubKey)) >= old(wmAttT(bytes(metadata[i].PubKey)))
+//@ ensures [frame] forall k Bytes :: (forall i int :: 0 <= i && i < len(metadata) && metadata[i] != nil ==> k != attKey(bytes(metadata[i].PubKey))) ==> ((k in db) <==> (k in old(db))) && db[k] == old(db)[k]
+//@ hint-after fetchSignBeaconAttestationStates@1 [okall] result1 == nil ==> (forall i int :: 0 <= i && i < len(metadata) ==> wmAttOk(bytes(metadata[i].PubKey)) && result0[i].SourceEpoch == wmAttS(bytes(metadata[i].PubKey)) && result0[i].TargetEpoch == wmAttT(bytes(metadata[i].PubKey)))
+//@ hint-after storeSignBeaconAttestationStates@1 [link] forall i int :: 0 <= i && i < len(metadata) ==> pubKeys[i] == metadata[i].PubKey && metadata[i] != nil
+//@ hint-after storeSignBeaconAttestationStates@1 [pkdistinct] forall i int, j int :: 0 <= i && i < j && j < len(pubKeys) ==> bytes(pubKeys[i]) != bytes(pubKeys[j])
+//@ hint-after storeSignBeaconAttestationStates@1 [rows] result == nil ==> (forall i int :: 0 <= i && i < len(pubKeys) ==> wmAttOk(bytes(pubKeys[i])) && wmAttS(bytes(pubKeys[i])) == states[i].SourceEpoch && wmAttT(bytes(pubKeys[i])) == states[i].TargetEpoch)
+//@ hint-after storeSignBeaconAttestationStates@1 [inj] forall a Bytes, b Bytes :: bnorm(a) && bnorm(b) && attKey(a) == attKey(b) ==> a == b
+//@ hint-after storeSignBeaconAttestationStates@1 [okrows] result == nil ==> (forall i int :: 0 <= i && i < len(metadata) ==> wmAttOk(bytes(metadata[i].PubKey)) && wmAttS(bytes(metadata[i].PubKey)) == states[i].SourceEpoch && wmAttT(bytes(metadata[i].PubKey)) == states[i].TargetEpoch)
+//@ hint-after storeSignBeaconAttestationStates@1 [frame] forall k Bytes :: (forall i int :: 0 <= i && i < len(metadata) ==> k != attKey(bytes(metadata[i].PubKey))) ==> ((k in db) <==> (k in old(db))) && db[k] == old(db)[k]
+//@ hint-after storeSignBeaconAttestationStates@1 [partial] result != nil ==> (forall i int :: 0 <= i && i < len(metadata) ==> wmAttOk(bytes(metadata[i].PubKey)) && ((wmAttS(bytes(metadata[i].PubKey)) == old(wmAttS(bytes(metadata[i].PubKey))) && wmAttT(bytes(metadata[i].PubKey)) == old(wmAttT(bytes(metadata[i].PubKey)))) || (wmAttS(bytes(metadata[i].PubKey)) == states[i].SourceEpoch && wmAttT(bytes(metadata[i].PubKey)) == states[i].TargetEpoch)))
+//@ loop #1
+//@ invariant [range] 0 <= _n && _n <= len(res) && len(res) == len(req) && fresh(res)
+//@ invariant [unknown] forall j int :: 0 <= j && j < _n ==> res[j] == rules.UNKNOWN
+//@ loop #2
+//@ invariant [range] 0 <= _n && _n <= len(res) && len(res) == len(req) && fresh(res)
+//@ invariant [noappr] forall j int :: 0 <= j && j < len(res) ==> res[j] == rules.UNKNOWN || res[j] == rules.FAILED
+//@ loop #3
+//@ invariant [range] 0 <= _n && _n <= len(metadata)
+//@ invariant [nonnil] forall j int :: 0 <= j && j < _n ==> metadata[j] != nil
+//@ loop #4
+//@ invariant [range] 0 <= _n && _n <= len(req)
+//@ invariant [nonnil] forall j int :: 0 <= j && j < _n ==> req[j] != nil && req[j].Source != nil && req[j].Target != nil
+//@ loop #5
+//@ invariant [range] 0 <= _n && _n <= len(metadata) && len(pubKeys) == len(metadata) && fresh(pubKeys)
+//@ invariant [keys] forall j int :: 0 <= j && j < _n ==> pubKeys[j] == metadata[j].PubKey
+//@ loop #6
+//@ invariant [range] 0 <= _n && _n <= len(res) && len(res) == len(req) && fresh(res)
+//@ invariant [noappr] forall j int :: 0 <= j && j < len(res) ==> res[j] == rules.UNKNOWN || res[j] == rules.FAILED
+//@ loop #7
+//@ invariant [range] 0 <= _n && _n <= len(req) && len(res) == len(req) && fresh(res) && len(states) == len(req) && fresh(states)
+//@ invariant [frame] forall r *signBeaconAttestationState :: !fresh(r) ==> r.SourceEpoch == old(r.SourceEpoch) && r.TargetEpoch == old(r.TargetEpoch)
+//@ invariant [states] forall j int :: 0 <= j && j < len(req) ==> states[j] != nil && fresh(states[j])
+//@ invariant [sdistinct] forall j int, k int :: 0 <= j && j < k && k < len(req) ==> states[j] != states[k]
+//@ invariant [todo] forall j int :: _n <= j && j < len(req) ==> states[j].SourceEpoch == wmAttS(bytes(pubKeys[j])) && states[j].TargetEpoch == wmAttT(bytes(pubKeys[j]))
+//@ invariant [verd] forall j int :: 0 <= j && j < _n ==> res[j] == rules.APPROVED || res[j] == rules.DENIED
+//@ invariant [appr] forall j int :: 0 <= j && j < _n && res[j] == rules.APPROVED ==> attOK(wmAttS(bytes(pubKeys[j])), wmAttT(bytes(pubKeys[j])), req[j].Source.Epoch, req[j].Target.Epoch, prefix4(req[j].Domain)) && states[j].SourceEpoch == req[j].Source.Epoch && states[j].TargetEpoch == req[j].Target.Epoch
+//@ invariant [deny] forall j int :: 0 <= j && j < _n && res[j] != rules.APPROVED ==> states[j].SourceEpoch == wmAttS(bytes(pubKeys[j])) && states[j].TargetEpoch == wmAttT(bytes(pubKeys[j]))
+//@ loop #8
+//@ invariant [range] 0 <= _n && _n <= len(res) && len(res) == len(req) && fresh(res)
+//@ invariant [noappr] forall j int :: 0 <= j && j < _n ==> res[j] == rules.FAILED
+//@ invariant [verd] forall j int :: 0 <= j && j < len(res) ==> res[j] == rules.APPROVED || res[j] == rules.DENIED || res[j] == rules.FAILED
